@@ -470,6 +470,8 @@ def check_c02(an):
     run, cfg = an.run, an.cfg
     if run.status != "ok":
         return out, {"skipped": "panic run"}
+    if not cfg.tsc:
+        return out, {"skipped": "OS timer: timestamps are not observable"}
     n_windows = n_alloc_in_calls = 0
     for tv in an.threads.values():
         in_window = set()
@@ -579,6 +581,16 @@ def check_c03(an):
         return out, info
     s, n = cfg.s, cfg.eff_n
     per = -(-n // T)
+    if not cfg.tsc:
+        # OS timer (not scriptable): no timestamp events; judge the call counts per thread and the report only
+        info["os_timer_runs"] = 1
+        if len(per_thread_calls) != T or any(v != per * s for v in per_thread_calls.values()):
+            out.append(V("C03", "calls_per_thread_os_timer", "calls per thread %s, expected %d on each of %d threads" % (dict(per_thread_calls), per * s, T)))
+        if an.caller_tid not in per_thread_calls:
+            out.append(V("C03", "caller_not_a_thread", "the calling thread made no call"))
+        if rep is not None and len(rep["samples"]) != T * per:
+            out.append(V("C03", "recorded_samples", "%d samples recorded, expected %d" % (len(rep["samples"]), T * per)))
+        return out, info
     workers = an.worker_threads()
     if len(workers) != T:
         out.append(V("C03", "thread_count", "%d threads took samples, expected %d" % (len(workers), T)))
@@ -692,8 +704,8 @@ def simulate(an):
 def check_c04(an):
     out = []
     run, cfg = an.run, an.cfg
-    if run.status != "ok":
-        return out, {"skipped": "panic run"}
+    if run.status != "ok" or not cfg.tsc:
+        return out, {"skipped": "panic run / OS timer"}
     sim = simulate(an)
     for code, msg in sim["problems"]:
         out.append(V("C04", code, msg, [w.e for w in (an.rounds[-1].values() if an.rounds else [])]))
@@ -712,8 +724,8 @@ def check_c04(an):
 def check_c19(an):
     out = []
     run, cfg = an.run, an.cfg
-    if run.status != "ok" or not cfg.tuned:
-        return out, {"skipped": "not a tuned ok run"}
+    if run.status != "ok" or not cfg.tuned or not cfg.tsc:
+        return out, {"skipped": "not a tuned ok run on the virtual clock"}
     sim = simulate(an)
     for code, msg in sim["problems"]:
         out.append(V("C19", code, msg))
@@ -916,7 +928,7 @@ def check_c05_chain(an):
     out = []
     run, cfg = an.run, an.cfg
     rep = run.report
-    if run.status != "ok" or rep is None or cfg.test or not an.rounds:
+    if run.status != "ok" or rep is None or cfg.test or not an.rounds or not cfg.tsc:
         return out, {}
     T = max(1, cfg.eff_T)
     rec = recorded_rounds(an)
